@@ -44,6 +44,16 @@ PROPS = {
         trusted_base=[SHA, CODEC],
         assumptions=["filter values are the documented non-negative ones (uid/gid/mtime), as in the property's quantifier"],
     ),
+    "C16": dict(
+        level="proof",
+        lean=["Rio.Props.C16"],
+        engines=["pick"],
+        exhaustive=True,
+        classes=["pick-wrong-warehouse", "pick-wrong-error", "pick-aborted", "pick-panic"],
+        rule="every list of up to 2 (quick) / 3 (thorough) warehouses over 16 kinds = scheme {file, ca+file, http, ca+http} x condition {missing dir, lacking, holding, http 5xx, connection refused} + unsupported scheme + unparsable address, on real directories and a loopback httptest server, plus sampled lists of 3-4 and the mono (scan) mode; oracle: first-holder rule computed from the conditions alone. Distinct = distinct lists.",
+        trusted_base=["net/http and the kernel's loopback networking", "kvfs/kvhttp controller answers as modelled by Wh.dial / Wh.open_ (compared on every list)"],
+        assumptions=["'holding a different ware at that address' is indistinguishable from 'holding' for PickReader (it does not look inside); verification of the content is C03"],
+    ),
     "C17": dict(
         level="proof",
         lean=["Rio.Props.C17"],
